@@ -13,10 +13,16 @@ import sys, json, base64, pickle
 def main():
     with open(sys.argv[1]) as f:
         inp = json.load(f)
-    from vlib import c31_model as cm
-    from pony.orm import db_session
-    from pony.orm.core import Entity
-    env = cm.Env(inp['spec'], inp['file'], create_tables=False)
+    try:
+        from vlib import c31_model as cm
+        from pony.orm import db_session
+        from pony.orm.core import Entity
+        env = cm.Env(inp['spec'], inp['file'], create_tables=False)
+    except Exception:
+        # the model could not even be rebuilt (e.g. pony not importable): a harness problem, not an unpickling result
+        import traceback
+        traceback.print_exc()
+        sys.exit(3)
     names = dict((cls.__name__, i) for i, cls in enumerate(env.E))
 
     def describe(u, read):
